@@ -323,3 +323,28 @@ Proof.
   intros Hl Ha. apply roundtrip_plain_canon; try assumption; try reflexivity.
   exact (float_lang_no_percent _ _ Hl).
 Qed.
+
+Lemma map_distinct_to_dom m : map_distinct m -> map_distinct_dom m.
+Proof.
+  intros [Hs Hd]. split; [|exact Hd]. intros r Hr. destruct (Hs r Hr) as (Hdom & H). rewrite Hdom. split; [reflexivity|exact H].
+Qed.
+
+(* C04_match_then_build without the float exclusion: the value float(t) returned for a float variable is read, through
+   the float contract, as the float whose str() is t (unraw) *)
+Theorem match_then_build_floats m r vals ts caps vs tts restP tcaps tvs meth ws :
+  map_distinct m -> In r (m_rules m) ->
+  segs_built (r_defaults r) vals (r_segs r) ts caps vs ->
+  tail_built (r_defaults r) vals (is_branch r) (r_tail r) tts restP tcaps tvs ->
+  NoDup (flat_map seg_names (r_segs r) ++ match r_tail r with Some n => [n] | None => [] end) ->
+  no_raw vals -> rmethod_ok r meth = true -> r_websocket r = ws ->
+  exists path,
+    build_rule r vals = BOk ([], path)
+    /\ matcher_run m (trie_of m) [] (path_part (unquote path)) meth ws = MOk rule rres r (vs ++ tvs)
+    /\ build_rule r (unraw_all (vs ++ tvs)) = BOk ([], path).
+Proof.
+  intros Hmd Hin Hsb Htb Hnd Hnr Hm Hw. destruct (proj1 Hmd r Hin) as (Hdom & _).
+  assert (Hdb : dom_built (r_defaults r) vals (r_dom r) [] [] []) by (rewrite Hdom; constructor; reflexivity).
+  assert (Hnd' : NoDup (seg_names (r_dom r) ++ flat_map seg_names (r_segs r) ++ match r_tail r with Some n => [n] | None => [] end))
+    by (rewrite Hdom; exact Hnd).
+  exact (build_match_build_dom m r vals [] [] [] ts caps vs tts restP tcaps tvs meth ws (map_distinct_to_dom m Hmd) Hin Hdb Hsb Htb Hnd' Hnr Hm Hw).
+Qed.
